@@ -10,6 +10,8 @@ STATICS = [
     [['Class', 'a&amp;b', '"'], ['title', 't&lt;', "'"]],
     [['checked', 'checked', '"'], ['class', 's1', '"']],
     [['href', 'x?a=1&amp;b=2', '"'], ['CHECKED', 'yes', "'"], ['id', 'i1', '"']],
+    [['class', 's1', ''], ['id', 'i1', '"']],                  # an unquoted static attribute
+    [['id', 'i1', '"'], ['k', None, None], ['checked', None, None]],   # valueless static attributes
 ]
 
 
@@ -25,6 +27,7 @@ def entry_sets():
     out.append(([['checked', 'v0']], [V('v0', 0)]))
     out.append(([['checked', 'v0'], ['disabled', 'v1']], [V('v0', 0), V('v1', 1)]))
     out.append(([['href', 'v0']], [V('v0', 0)]))
+    out.append(([['k', 'v0']], [V('v0', 0)]))
     # the same name twice (other case), other names around it
     out.append(([['Title', 'v0'], ['x', 'v1'], ['title', 'v2']], [V('v0', 0), V('v1', 1), V('v2', 2)]))
     out.append(([['x', 'v1'], ['Title', 'v0'], ['title', 'v2']], [V('v0', 0), V('v1', 1), V('v2', 2)]))
@@ -70,8 +73,8 @@ def plan(tier, seed):
                    'chameleon.compiler:Compiler.visit_Attribute', 'chameleon.compiler:Compiler.visit_DictAttributes',
                    'chameleon.compiler:emit_bool', 'chameleon.compiler:emit_func_convert_and_escape',
                    'chameleon.zpt.template:PageTemplate.parse'],
-        bounds=('%d programs: %d static attribute lists (0-3 attributes, mixed case and quoting, entities in the text) '
-                'x %d tal:attributes lists (named, other-case names, new names, boolean names, attribute dictionary '
+        bounds=('%d programs: %d static attribute lists (0-3 attributes, mixed case and quoting incl. unquoted, entities in the text) '
+                'x %d tal:attributes lists (named, other-case names, new names, the same name twice in other case among other names, boolean names, attribute dictionary '
                 'first/last with symbolic key presence) x boolean configurations {HTML default, XML/none, explicit '
                 'empty set, explicit set}; every dynamic value ranges over [None, default, "", 0, False, True, hostile '
                 'str]. Outside: ${} inside static attribute text (C06), more than 3 static attributes, ";;" escapes '
